@@ -86,6 +86,11 @@ class Ctx:
             return rec["status"] == "ok"
         r = self.eng.is_sat(negated_property)
         rec = {"label": label, "status": {"unsat": "ok", "sat": "fail"}.get(r, "unknown")}
+        rate = self.eng.path_state.get("second_solver_rate", 0.0)
+        if rate and r in ("sat", "unsat"):
+            h = int(hashlib.sha1(repr((self.eng.path_state.get("job_salt"), label, len(self.obligations), self.eng.trace)).encode()).hexdigest()[:8], 16) / 0xFFFFFFFF
+            if h < rate:
+                self.eng.path_state.setdefault("xcheck", []).append(second_solver(self.eng, negated_property, r))
         if r == "sat":
             rec["witnesses"] = find_witnesses(self, [negated_property], k=3)
             if info is not None:
@@ -112,6 +117,39 @@ class Ctx:
             s.add(z3.Not(formula))
             return str(s.check()) == "unsat"
         return self.eng.is_sat(z3.Not(formula)) == "unsat"
+
+
+def second_solver(eng, extra, z3_verdict, timeout_s=10):
+    """Re-decide  pc ∧ extra  with cvc5 (binary, SMT-LIB2 dump of the z3 assertions)."""
+    import tempfile
+
+    import z3
+
+    s2 = z3.Solver()
+    for a in eng.s.assertions():
+        s2.add(a)
+    s2.add(extra)
+    text = "(set-logic ALL)\n" + s2.to_smt2()
+    fd, path = tempfile.mkstemp(suffix=".smt2", prefix="pv_x_")
+    try:
+        with os.fdopen(fd, "w") as fh:
+            fh.write(text)
+        try:
+            p = subprocess.run(["cvc5", "--lang=smt2", f"--tlimit={timeout_s * 1000}", path], capture_output=True, text=True, timeout=timeout_s + 5)
+            out = (p.stdout + p.stderr).strip().splitlines()
+            verdict = next((l.strip() for l in out if l.strip() in ("sat", "unsat", "unknown")), "unknown")
+            if any("(error" in l for l in out):
+                verdict = "error"
+        except Exception:
+            verdict = "unknown"
+    finally:
+        try:
+            os.unlink(path)
+        except OSError:
+            pass
+    if verdict in ("sat", "unsat"):
+        return "agree" if verdict == z3_verdict else f"DISAGREE z3={z3_verdict} cvc5={verdict}"
+    return verdict
 
 
 def _candidates(v):
@@ -346,6 +384,8 @@ def sym_worker(args):
                 raise E.PathAbort("job time budget")
             shims.NUMERALS.clear()
             shims.FOURG.clear()
+            eng.path_state["second_solver_rate"] = opts.get("second_solver_rate", 0.0)
+            eng.path_state["job_salt"] = repr(job)
             ctx = Ctx(eng)
             prof = None
             if opts.get("trace_functions") and eng.stats.paths < 3:
@@ -365,6 +405,7 @@ def sym_worker(args):
                 "lp": [c["status"] for c in eng.lp_calls],
                 "nonlinear": eng.nonlinear,
                 "proj_validated": eng.path_state.get("proj_validated", []),
+                "xcheck": eng.path_state.get("xcheck", []),
             }
             # witness of the path itself (for differential replay), with the result evaluated on it
             want = opts.get("path_witness", True)
@@ -563,6 +604,7 @@ def run_check(prop, tier, seed=None):
     opts.setdefault("trace_functions", True)
     opts.setdefault("validate_lp", tier == "thorough")
     opts.setdefault("witness_rate", 0.3 if tier == "quick" else 1.0)
+    opts.setdefault("second_solver_rate", 0.01 if tier == "quick" else 0.03)
     nproc = int(os.environ.get("VERIF_NPROC", "16"))
     jobs = mod.jobs(tier, seed)
     budget = opts.get("tier_budget_s", 170 if tier == "quick" else 1500)
@@ -706,6 +748,7 @@ def run_check(prop, tier, seed=None):
     stats = {k: sum(r["stats"].get(k, 0) for r in recs if r["stats"]) for k in ("queries", "solver_time", "decisions", "paths")}
     cap_hits = sum(1 for r in recs if r["stats"] and r["stats"].get("cap_hit"))
     proj_val = [v for r in recs for p in r["paths"] for v in p.get("proj_validated", [])]
+    xc = [v for r in recs for p in r["paths"] for v in p.get("xcheck", [])]
 
     # reachability (vacuity guard)
     missing = []
@@ -743,6 +786,8 @@ def run_check(prop, tier, seed=None):
         problems.append(f"{n_unknown} obligations undecided by the solver (unknown)")
     if aborted > max(2, 0.02 * max(1, n_paths)):
         problems.append(f"{aborted} aborted paths ({abort_reasons})")
+    if any(str(v).startswith("DISAGREE") for v in xc):
+        problems.append("second solver disagrees: " + next(v for v in xc if str(v).startswith("DISAGREE")))
     if any(v is False for v in proj_val):
         problems.append("an LP projection failed validation")
     if problems and exit_code == EXIT_OK:
@@ -782,6 +827,7 @@ def run_check(prop, tier, seed=None):
             "inconclusive_lp_choice_paths": len(lp_choice_inconclusive),
             "inconclusive_other": len(inconclusive),
             "inconclusive_samples": (lp_choice_inconclusive + inconclusive)[:5],
+            "second_solver": {"solver": "cvc5 (binary)", "queries": len(xc), "agree": sum(1 for v in xc if v == "agree"), "undecided_or_error": sum(1 for v in xc if v in ("unknown", "error"))},
             "lp_projections_validated": sum(1 for v in proj_val if v),
             "lp_projections_unknown": sum(1 for v in proj_val if v is None),
             "known_findings_hit": {k: v["count"] for k, v in known_hits.items()},
